@@ -69,6 +69,20 @@ def register(PROPS, COMPONENTS):
                 for x in part.get(k, []):
                     if x not in sp[k]:
                         sp[k] = sp[k] + [x]
+            # optional: a part may describe what it adds to the property's level text
+            if part.get("level_text_add") and part["level_text_add"] not in sp.get("level_text", ""):
+                sp["level_text"] = sp.get("level_text", "") + " " + part["level_text_add"]
+
+    # C14 spans three components; say which parts this tree actually carries
+    if "C14" in PROPS:
+        have = PROPS["C14"]["components"]
+        missing = [c for c in ("lr", "cow", "rcu") if not any(x == c or x.startswith(c + "_") for x in have)]
+        if missing:
+            PROPS["C14"]["partial"] = PROPS["C14"]["partial"] + [
+                "parts for %s are not in this tree yet: for them nothing is claimed" % ", ".join(missing)]
+            PROPS["C14"]["level_note"] += " Covered components: %s; NOT covered yet: %s." % (", ".join(have), ", ".join(missing))
+            PROPS["C14"]["level_text"] = PROPS["C14"]["level_text"].replace(
+                "lr_guarded, cow_guarded and rcu_list", "lr_guarded, cow_guarded and rcu_list (this tree: %s only)" % ", ".join(have))
 
     COMPONENTS["latch"] = dict(client="latch", driver="latch", directed_runs=6, quick_runs=400, thorough_runs=30000,
                                oracle=oracle_latch, cov_headers=["gmlc/concurrency/Latch.hpp"])
